@@ -1,4 +1,4 @@
-//! Exact values for pawnless 4-man endings K+X vs K+Y (X, Y in Q,R,B,N), built by retrograde
+//! Exact values for pawnless 4-man endings K+X vs K+Y and K+X+Y vs K (X, Y in Q,R,B,N), built by retrograde
 //! analysis on `oracle::rules` with stored successor lists (CSR) and parallel sweeps. Captures
 //! fall into the 3-man tablebases. Built once by `./check --setup` into /verif/cache (the tables
 //! depend only on the oracle, never on /repo) and loaded by the checks when present.
@@ -33,7 +33,28 @@ fn dec(v: i16) -> Option<Val> {
 pub struct Table4 {
     pub wx: Kind,
     pub bx: Kind,
-    val: Vec<i16>,
+    /// false: White K+wx against Black K+bx; true: White K+wx+bx against the bare black king
+    pub same: bool,
+    /// in memory one byte per position (distances stay below 126 plies in every class built here)
+    val: Vec<i8>,
+}
+
+fn pack(v: i16) -> i8 {
+    if v == DRAW {
+        -128
+    } else if v == UNK || v == ILLEGAL {
+        -127
+    } else {
+        assert!(v > -126 && v < 127, "distance out of the compact range");
+        v as i8
+    }
+}
+fn unpack(v: i8) -> i16 {
+    match v {
+        -128 => DRAW,
+        -127 => ILLEGAL,
+        x => x as i16,
+    }
 }
 
 #[inline]
@@ -41,7 +62,8 @@ fn idx(wk: usize, bk: usize, wx: usize, bx: usize, wtm: bool) -> usize {
     ((((wk * 64 + bk) * 64 + wx) * 64 + bx) << 1) | (!wtm as usize)
 }
 
-fn locate(p: &Pos, wxk: Kind, bxk: Kind) -> Option<usize> {
+fn locate(p: &Pos, wxk: Kind, bxk: Kind, same: bool) -> Option<usize> {
+    let second = if same { bxk as i8 } else { -(bxk as i8) };
     let (mut wk, mut bk, mut wx, mut bx) = (None, None, None, None);
     let mut n = 0;
     for s in 0..64usize {
@@ -56,7 +78,7 @@ fn locate(p: &Pos, wxk: Kind, bxk: Kind) -> Option<usize> {
             bk = Some(s)
         } else if v == wxk as i8 && wx.is_none() {
             wx = Some(s)
-        } else if v == -(bxk as i8) && bx.is_none() {
+        } else if v == second && bx.is_none() {
             bx = Some(s)
         } else {
             return None;
@@ -68,7 +90,7 @@ fn locate(p: &Pos, wxk: Kind, bxk: Kind) -> Option<usize> {
     Some(idx(wk?, bk?, wx?, bx?, p.wtm))
 }
 
-fn pos_of(i: usize, wxk: Kind, bxk: Kind) -> Option<Pos> {
+fn pos_of(i: usize, wxk: Kind, bxk: Kind, same: bool) -> Option<Pos> {
     let wtm = i & 1 == 0;
     let j = i >> 1;
     let (bx, wx, bk, wk) = (j % 64, (j / 64) % 64, (j / 4096) % 64, j / 262144);
@@ -79,14 +101,14 @@ fn pos_of(i: usize, wxk: Kind, bxk: Kind) -> Option<Pos> {
     b[wk] = 6;
     b[bk] = -6;
     b[wx] = wxk as i8;
-    b[bx] = -(bxk as i8);
+    b[bx] = if same { bxk as i8 } else { -(bxk as i8) };
     Some(Pos { b, wtm, castle: 0, ep: None, half: 0, full: 1 })
 }
 
 impl Table4 {
     pub const N: usize = 64 * 64 * 64 * 64 * 2;
 
-    pub fn build(wxk: Kind, bxk: Kind, tb3: &Tablebases, threads: usize) -> Table4 {
+    pub fn build(wxk: Kind, bxk: Kind, same: bool, tb3: &Tablebases, threads: usize) -> Table4 {
         let n = Self::N;
         // pass 1 (parallel over white-king squares): classify and collect successors
         let chunk = 64 * 64 * 64 * 2 * 1; // positions per white-king square / 1
@@ -107,7 +129,7 @@ impl Table4 {
                         for k in 0..per_wk {
                             off.push(flat.len() as u32);
                             let i = wk * per_wk + k;
-                            let Some(p) = pos_of(i, wxk, bxk) else {
+                            let Some(p) = pos_of(i, wxk, bxk, same) else {
                                 val[k] = ILLEGAL;
                                 continue;
                             };
@@ -122,7 +144,7 @@ impl Table4 {
                             }
                             for m in ms {
                                 let c = p.make(&m);
-                                if let Some(j) = locate(&c, wxk, bxk) {
+                                if let Some(j) = locate(&c, wxk, bxk, same) {
                                     flat.push(j as u32);
                                 } else {
                                     // a capture: exact value from the 3-man tables (or bare kings)
@@ -228,15 +250,38 @@ impl Table4 {
                 *v = DRAW;
             }
         }
-        Table4 { wx: wxk, bx: bxk, val }
+        Table4 { wx: wxk, bx: bxk, same, val: val.into_iter().map(pack).collect() }
     }
 
     pub fn probe_raw(&self, p: &Pos) -> Option<Val> {
-        locate(p, self.wx, self.bx).and_then(|i| dec(self.val[i]))
+        locate(p, self.wx, self.bx, self.same).and_then(|i| dec(unpack(self.val[i])))
+    }
+
+    /// A random legal position of this table whose value satisfies `pred` (None after `tries` probes).
+    pub fn sample<R: rand::Rng, F: Fn(Val) -> bool>(&self, rng: &mut R, pred: F, tries: usize) -> Option<(Pos, Val)> {
+        for _ in 0..tries {
+            let i = rng.gen_range(0..Self::N);
+            if let Some(v) = dec(unpack(self.val[i])) {
+                if pred(v) {
+                    if let Some(p) = pos_of(i, self.wx, self.bx, self.same) {
+                        return Some((p, v));
+                    }
+                }
+            }
+        }
+        None
+    }
+
+    pub fn name(&self) -> String {
+        if self.same {
+            format!("K{}{}vK", self.wx.letter(), self.bx.letter())
+        } else {
+            format!("K{}vK{}", self.wx.letter(), self.bx.letter())
+        }
     }
 
     pub fn max_win(&self) -> u16 {
-        self.val.iter().filter_map(|v| match dec(*v) {
+        self.val.iter().filter_map(|v| match dec(unpack(*v)) {
             Some(Val::Win(n)) => Some(n),
             _ => None,
         }).max().unwrap_or(0)
@@ -244,10 +289,10 @@ impl Table4 {
 
     pub fn save(&self, path: &str) -> std::io::Result<()> {
         let mut f = std::io::BufWriter::new(std::fs::File::create(path)?);
-        f.write_all(b"WVTB4\0")?;
+        f.write_all(if self.same { b"WVTB4S" } else { b"WVTB4\0" })?;
         f.write_all(&[self.wx as u8, self.bx as u8])?;
         for v in self.val.iter() {
-            f.write_all(&v.to_le_bytes())?;
+            f.write_all(&unpack(*v).to_le_bytes())?;
         }
         Ok(())
     }
@@ -256,7 +301,7 @@ impl Table4 {
         let mut f = std::io::BufReader::new(std::fs::File::open(path)?);
         let mut head = [0u8; 8];
         f.read_exact(&mut head)?;
-        if &head[..6] != b"WVTB4\0" {
+        if &head[..6] != b"WVTB4\0" && &head[..6] != b"WVTB4S" {
             return Err(std::io::Error::new(std::io::ErrorKind::InvalidData, "bad header"));
         }
         let mut bytes = Vec::new();
@@ -264,8 +309,8 @@ impl Table4 {
         if bytes.len() != Self::N * 2 {
             return Err(std::io::Error::new(std::io::ErrorKind::InvalidData, "bad length"));
         }
-        let val = bytes.chunks_exact(2).map(|c| i16::from_le_bytes([c[0], c[1]])).collect();
-        Ok(Table4 { wx: Kind::from_i8(head[6] as i8), bx: Kind::from_i8(head[7] as i8), val })
+        let val = bytes.chunks_exact(2).map(|c| pack(i16::from_le_bytes([c[0], c[1]]))).collect();
+        Ok(Table4 { wx: Kind::from_i8(head[6] as i8), bx: Kind::from_i8(head[7] as i8), same: &head[..6] == b"WVTB4S", val })
     }
 }
 
@@ -274,20 +319,41 @@ pub struct Tablebases4 {
     pub tables: Vec<Table4>,
 }
 
-pub const CLASSES: [(Kind, Kind); 7] = [(Kind::R, Kind::R), (Kind::Q, Kind::Q), (Kind::Q, Kind::R), (Kind::R, Kind::B), (Kind::R, Kind::N), (Kind::Q, Kind::B), (Kind::Q, Kind::N)];
+/// (first piece, second piece, same side, longest win in plies). The longest wins are the published
+/// distance-to-mate maxima (KRKR 19 moves, KQKQ 13, KQKR 35, KRKB 29, KRKN 40, KQKB 17, KQKN 21, KBKB / KBKN / KNKN 1,
+/// KBNK 33, KBBK 19, KNNK 1, KRBK / KRNK 16); a loaded table that does not reproduce its maximum is ignored.
+pub const CLASSES: [(Kind, Kind, bool, u16); 15] = [
+    (Kind::R, Kind::R, false, 37),
+    (Kind::Q, Kind::Q, false, 25),
+    (Kind::Q, Kind::R, false, 69),
+    (Kind::R, Kind::B, false, 57),
+    (Kind::R, Kind::N, false, 79),
+    (Kind::Q, Kind::B, false, 33),
+    (Kind::Q, Kind::N, false, 41),
+    (Kind::B, Kind::B, false, 1),
+    (Kind::B, Kind::N, false, 1),
+    (Kind::N, Kind::N, false, 1),
+    (Kind::B, Kind::N, true, 65),
+    (Kind::B, Kind::B, true, 37),
+    (Kind::N, Kind::N, true, 1),
+    (Kind::R, Kind::B, true, 31),
+    (Kind::R, Kind::N, true, 31),
+];
 
-pub fn cache_path(w: Kind, b: Kind) -> String {
-    format!("/verif/cache/tb4-K{}vK{}.bin", w.letter(), b.letter())
+pub fn cache_path(w: Kind, b: Kind, same: bool) -> String {
+    if same {
+        format!("/verif/cache/tb4-K{}{}vK.bin", w.letter(), b.letter())
+    } else {
+        format!("/verif/cache/tb4-K{}vK{}.bin", w.letter(), b.letter())
+    }
 }
 
 impl Tablebases4 {
     pub fn load_cached() -> Tablebases4 {
         let mut tables = vec![];
-        // published longest wins (plies) validate a loaded table: KRKR 19 moves, KQKQ 13, KQKR 35, KRKB 29, KRKN 40, KQKB 17, KQKN 21
-        let known = [37u16, 25, 69, 57, 79, 33, 41];
-        for (i, (w, b)) in CLASSES.iter().enumerate() {
-            if let Ok(t) = Table4::load(&cache_path(*w, *b)) {
-                if t.wx == *w && t.bx == *b && t.max_win() == known[i] {
+        for (w, b, same, known) in CLASSES.iter() {
+            if let Ok(t) = Table4::load(&cache_path(*w, *b, *same)) {
+                if t.wx == *w && t.bx == *b && t.same == *same && t.max_win() == *known {
                     tables.push(t);
                 }
             }
